@@ -542,8 +542,11 @@ def enclosure_bounds(imports, defs, term):
 
 
 def beyond_binary64(bounds):
-    """The true value itself cannot be represented: |value| > ~1.7e308 (then a sanitised +-1e16 is all the library can return)."""
-    return bounds is not None and (min(abs(bounds[0]), abs(bounds[1])) > 1e300 or bounds[0] in (float("inf"), float("-inf")))
+    """The true value itself, or the intermediate products any floating evaluation of it needs, cannot be represented (then a sanitised
+    +-1e16 / 0 is all the library can return)."""
+    # (1e150: beyond the square root of the largest double the products and squares inside ANY floating evaluation of a chain or
+    #  quotient rule overflow before the final division brings the value back - e.g. the Hessian of |2**u| at u = 596, true value 1e185)
+    return bounds is not None and (min(abs(bounds[0]), abs(bounds[1])) > 1e150 or bounds[0] in (float("inf"), float("-inf")))
 
 
 def sanitised_overflow(imports, defs, case, enclosure_of_case, observed):
@@ -834,3 +837,90 @@ def safe_repr(obj):
         return builtins.repr(obj)
     except RecursionError:
         return f"<{type(obj).__name__}: too deep to print>"
+
+
+class _TrackInt:
+    """An exact integer that remembers the largest magnitude any intermediate result reached.  Evaluating a compiled callable on an
+    object array of these tells whether the same evaluation on an int64 array can have wrapped around (fixed-width integers do):
+    only if no intermediate comes near 2**63 is a different int64 answer the library's fault."""
+    __slots__ = ("v",)
+    peak = [0]
+
+    def __init__(self, v):
+        self.v = int(v)
+        a = abs(self.v)
+        if a > _TrackInt.peak[0]:
+            _TrackInt.peak[0] = a
+
+    @staticmethod
+    def _w(o):
+        return o.v if isinstance(o, _TrackInt) else (int(o) if isinstance(o, (np.integer,)) else o)
+
+    @staticmethod
+    def _r(val):
+        return _TrackInt(val) if isinstance(val, int) and not isinstance(val, bool) else val
+
+    def __add__(self, o): return self._r(self.v + self._w(o))
+    def __radd__(self, o): return self._r(self._w(o) + self.v)
+    def __sub__(self, o): return self._r(self.v - self._w(o))
+    def __rsub__(self, o): return self._r(self._w(o) - self.v)
+    def __mul__(self, o): return self._r(self.v * self._w(o))
+    def __rmul__(self, o): return self._r(self._w(o) * self.v)
+    def __neg__(self): return _TrackInt(-self.v)
+    def __pos__(self): return self
+    def __abs__(self): return _TrackInt(abs(self.v))
+    def __truediv__(self, o): return self.v / self._w(o)
+    def __rtruediv__(self, o): return self._w(o) / self.v
+
+    def __pow__(self, o):
+        w = self._w(o)
+        if isinstance(w, int) and w < 0:
+            raise ValueError("Integers to negative integer powers are not allowed.")       # what NumPy says for int64
+        return self._r(self.v ** w)
+
+    def __rpow__(self, o):
+        w = self._w(o)
+        if isinstance(w, int) and self.v < 0:
+            raise ValueError("Integers to negative integer powers are not allowed.")
+        return self._r(w ** self.v)
+
+    def __float__(self): return float(self.v)
+    def __lt__(self, o): return self.v < self._w(o)
+    def __le__(self, o): return self.v <= self._w(o)
+    def __gt__(self, o): return self.v > self._w(o)
+    def __ge__(self, o): return self.v >= self._w(o)
+    def __eq__(self, o): return self.v == self._w(o)
+    def __hash__(self): return hash(self.v)
+
+
+def _install_trackint_functions():
+    # NumPy's object loops call a METHOD named like the ufunc on each element (np.sin(a) -> a[i].sin()): the elementary functions
+    # leave the integers for good (floats do not wrap)
+    import math
+    table = {"sin": math.sin, "cos": math.cos, "tan": math.tan, "exp": math.exp, "log": math.log, "log2": math.log2, "log10": math.log10,
+             "sqrt": math.sqrt, "tanh": math.tanh, "sinh": math.sinh, "cosh": math.cosh, "arcsin": math.asin, "arccos": math.acos,
+             "arctan": math.atan, "arcsinh": math.asinh, "arccosh": math.acosh, "arctanh": math.atanh}
+    for nm_, fn_ in table.items():
+        setattr(_TrackInt, nm_, (lambda self, fn_=fn_: fn_(self.v)))
+    _TrackInt.sign = lambda self: (self.v > 0) - (self.v < 0)
+    _TrackInt.conjugate = lambda self: self
+
+
+_install_trackint_functions()
+
+
+def int64_cannot_wrap(f, x):
+    """True if evaluating f on the integer point x provably keeps every integer intermediate below 2**62 (so an int64 array gives
+    exact integer arithmetic); False if some intermediate is larger or the evaluation cannot be followed (functions, comparisons)."""
+    _TrackInt.peak[0] = 0
+    try:
+        arr = np.empty(len(x), dtype=object)
+        for i, t in enumerate(x):
+            arr[i] = _TrackInt(int(t))
+        with np.errstate(all="ignore"):
+            f(arr)
+    except Exception:
+        # the run could not be followed to the end (typically the library's own post-processing - np.isfinite - refusing an object
+        # array after all the arithmetic is done): go by what was seen, with a much wider margin
+        return 0 < _TrackInt.peak[0] < 2 ** 40
+    return _TrackInt.peak[0] < 2 ** 62
